@@ -767,6 +767,16 @@ async fn thread_post_message(
         stateless_history: cfg.stateless_history,
         parallel_tool_calls: cfg.parallel_tool_calls,
     });
+    // Register the session before anything is logged: taking the session map's lock is the handler's only
+    // suspension point, and the server drops the handler of a client that hangs up while it is suspended.
+    // From the message append to spawn_session nothing awaits, so a logged message always gets its run.
+    let handle = state.engine.create_session();
+    let session_id = handle.session_id.clone();
+    {
+        let mut sessions = state.sessions.lock().await;
+        sessions.insert(session_id.clone(), handle.clone());
+    }
+
     let message_id = match store.append_message(
         &thread_id,
         actor_id.clone(),
@@ -774,15 +784,11 @@ async fn thread_post_message(
         content.clone(),
     ) {
         Ok(id) => id,
-        Err(_) => return StatusCode::NOT_FOUND.into_response(),
+        Err(_) => {
+            state.sessions.lock().await.remove(&session_id);
+            return StatusCode::NOT_FOUND.into_response();
+        }
     };
-
-    let handle = state.engine.create_session();
-    let session_id = handle.session_id.clone();
-    {
-        let mut sessions = state.sessions.lock().await;
-        sessions.insert(session_id.clone(), handle.clone());
-    }
 
     let run_link = crate::continuities::ContinuityRunLink {
         continuity_id: thread_id.clone(),
